@@ -41,6 +41,15 @@ def explore(ck: Check, n_tables: int, slow_formats: bool) -> None:
             # headers that need cleaning, some with a distinct twin that IS the cleaned spelling ("unit cost" / "unit_cost")
             t = gen_table(rng, fixed_safe=fixed, n_rows=rng.randint(700, 1500) if big else rng.randint(0, 8),
                           cleaning_headers=(not fixed and i % 2 == 1))
+            if big:
+                # long enough for every fixed-width copy to exceed 40000 bytes whatever the cell widths turn out to be
+                import math
+                reclen = sum(max(len(r[c]) for r in t[1:]) for c in range(len(t[0])))
+                need = math.ceil(40000 / max(1, reclen)) + 7
+                k = 0
+                while len(t) - 1 < need:
+                    t.append(list(t[1 + k % 700]))
+                    k += 1
             narrow = fixed and i % 6 == 0 and len(t) > 1
             if narrow:
                 for r in t[1:]:
